@@ -277,7 +277,7 @@ hx_process(char *line)
             setitimer(ITIMER_REAL, &it, NULL);
         }
         if (json_object_get(args, "rand_fail") && json_is_object(res)) {
-            extern size_t hx_rand_last_calls;
+            extern __thread size_t hx_rand_last_calls;
             json_object_set_new(res, "rand_calls", json_integer((json_int_t) hx_rand_last_calls));
         }
         if (timed && json_is_object(res))
